@@ -1,17 +1,20 @@
-\* C03 leg A thorough: 3 stores, <= 2 frames per store, <= 3 frames in all, 3 label sets (two replicas of one
-\* series, replica label in the middle), 5 chunk lists (raw, none, aggregated identical /
-\* sharing count / sharing sum), response batch 2; worlds for the harness: the 2-store worlds, every 24th
+\* C03 leg A thorough: 3 stores, <= 2 frames per store, <= 3 frames in all; frames: 3 label sets (two replicas of one
+\* series, replica label in the middle) x 5 chunk lists (raw, none, aggregated identical / sharing count / sharing
+\* sum), or a hints or a warning message; lazy and eager; response batch 2; worlds for the harness: the 2-store
+\* worlds, every 30th
 SPECIFICATION Spec
 CONSTANTS NStores = 3
           MaxPerStore = 2
           MaxTotal = 3
           NLsets = 3
           NChunkLists = 5
+          NNonSeries = 2
+          Eager = {FALSE, TRUE}
           RespBatch = {2}
           CaseStores = 2
           CasePerStore = 2
           CaseTotal = 3
-          CaseStride = 24
-INVARIANTS C03_Response C03_EmittedIsFinal C03_Batching C03_TieIndependent
+          CaseStride = 30
+INVARIANTS C03_Response C03_EmittedIsFinal C03_Batching C03_TieIndependent C03_NonSeriesCarried
 PROPERTY C03_Progresses
 CHECK_DEADLOCK TRUE
